@@ -56,7 +56,9 @@ def one_process(exe, d, param, upto, restart_from=None, tag=""):
             wruns = cur
         elif x["e"] == "r.run":
             rruns.append([x["k"], x["s"], x["n"]])
-    LAYOUT[(d, tag)] = (merge_runs(wruns), merge_runs(rruns))
+    nsub_dumped = [x.get("nsub", -1) for x in res["trace"] if x["e"] == "dump.end"]
+    nsub_init = [x.get("nsub", -1) for x in res["trace"] if x["e"] == "run.init"]
+    LAYOUT[(d, tag)] = (merge_runs(wruns), merge_runs(rruns), nsub_dumped[-1] if nsub_dumped else -1, nsub_init[0] if nsub_init else -1)
     return res["rc"], steps, dump, res["cmd"]
 
 
@@ -76,9 +78,10 @@ def merge_runs(runs):
 
 def layout_rec(d, wtag, rtag):
     """Record comparing what process rtag read with what process wtag wrote into the dump it started from."""
-    w = LAYOUT.get((d, wtag), ([], []))[0]
-    r = LAYOUT.get((d, rtag), ([], []))[1]
-    return {"e": "layout", "w": w, "r": r}
+    lw = LAYOUT.get((d, wtag), ([], [], -1, -1))
+    lr = LAYOUT.get((d, rtag), ([], [], -1, -1))
+    # nsubw / nsubr: number of subgrids (originals + copies) in memory when the dump was written / after it was read back
+    return {"e": "layout", "w": lw[0], "r": lr[1], "nsubw": lw[2], "nsubr": lr[3]}
 
 
 def histories(exe, rd, name, pkw, N, chains):
@@ -181,6 +184,12 @@ def configurations(tier, rng):
                                     extra="  turbulent forcing: true\n" + TURB)))
     cfgs.append(("turbulence_aniso", dict(base, ncell=(8, 12, 16), nsub=(2, 2, 2), periodic=(True, True, True), side=(1., 1., 1.),
                                           extra="  turbulent forcing: true\n" + TURB)))
+    # an evolving source: a supernova that goes off during the first step (its "has exploded" state has to survive a restart,
+    # otherwise the energy is injected again)
+    cfgs.append(("supernova", dict(base, ncell=(8, 8, 8), nsub=(2, 2, 2), periodic=(False, False, False), side=(1., 1., 1.),
+                                   extra="  do stellar feedback: true\n",
+                                   source_block="PhotonSourceDistribution:\n  type: SingleSupernova\n  position: [0.4 m, 0.6 m, 0.55 m]\n"
+                                                "  lifetime: 1.e-12 s\n  luminosity: 1.e46 s^-1\n  energy: 1.e-9 J\n")))
     cfgs.append(("mask", dict(base, ncell=(8, 8, 8), nsub=(2, 2, 2), periodic=(False, False, False), side=(1., 1., 1.),
                               extra="  use mask: true\n" + MASK)))
     if tier != "quick":
